@@ -101,7 +101,7 @@ def main(argv=None):
         crate, unlocated, sliced = c21.build(tier)
     elif pid == 'C23':
         from . import c23
-        crate, unlocated, sliced = c23.build(tier)
+        crate, unlocated, sliced = c23.build(tier, a.seed)
     elif pid == 'C25':
         from . import c25
         crate, unlocated, sliced = c25.build(tier)
